@@ -381,7 +381,9 @@ func runC14(c *Ctx) {
 			c.check(ok, "C14.1", "MigrateFiles:write-error-returned", L.pos(write.Pos()), "a failing write is reported", why)
 		}
 		// every error of the pipeline propagates
-		inMig := func(callee *ssa.Function) bool { return callee.Pkg != nil && callee.Pkg.Pkg.Path() == migPkg && L.NonTest[callee] }
+		inMig := func(callee *ssa.Function) bool {
+			return callee.Pkg != nil && callee.Pkg.Pkg.Path() == migPkg && L.NonTest[callee]
+		}
 		n := propagationRule(c, "C14.1", fns, inMig, nil)
 		c.floor("C14.1", "calls to fallible internal/migrate functions", n, 8)
 	} else {
@@ -545,11 +547,23 @@ func c14ImportsException(c *Ctx, fn *ssa.Function, ml mapLoop) {
 		c.seen(fnName(bid))
 		for _, cs := range callsIn(bid) {
 			if cs.callee == "sort.Slice" || cs.callee == "slices.SortFunc" || cs.callee == "sort.SliceStable" {
-				if mc, isC := resolve(cs.arg(1)).(*ssa.MakeClosure); isC {
-					for _, b := range mc.Fn.(*ssa.Function).Blocks {
+				var cmp *ssa.Function
+				switch f := resolve(cs.arg(1)).(type) {
+				case *ssa.MakeClosure:
+					cmp = f.Fn.(*ssa.Function)
+				case *ssa.Function:
+					cmp = f
+				}
+				if cmp != nil {
+					for _, b := range cmp.Blocks {
 						for _, in := range b.Instrs {
 							if fa, isF := in.(*ssa.FieldAddr); isF && fieldKey(fa) == "internal/migrate.ImportSpec.Path" {
 								ok1 = true
+							}
+							if fv, isF := in.(*ssa.Field); isF && strings.HasSuffix(fv.X.Type().String(), "migrate.ImportSpec") {
+								if st, ok := fv.X.Type().Underlying().(*types.Struct); ok && st.Field(fv.Field).Name() == "Path" {
+									ok1 = true
+								}
 							}
 						}
 					}
